@@ -36,9 +36,9 @@ type c35Link struct {
 }
 
 type c35Obj struct {
-	ID    string   `json:"id"`            // unique in the case, [a-z][a-z0-9]*
-	In    string   `json:"in,omitempty"`  // container id: the object is written as <In>.<ID>
-	Style int      `json:"style"`         // 0: `id.link: v`   1: `id: {link: v}`   2: `id` first, then `id.link: v`
+	ID    string   `json:"id"`           // unique in the case, [a-z][a-z0-9]*
+	In    string   `json:"in,omitempty"` // container id: the object is written as <In>.<ID>
+	Style int      `json:"style"`        // 0: `id.link: v`   1: `id: {link: v}`   2: `id` first, then `id.link: v`
 	Link  *c35Link `json:"link,omitempty"`
 }
 
@@ -505,6 +505,7 @@ func checkC35(h *hx.H, c c35Case) {
 		h.Reject("compile-error")
 	}
 	if countGraphs(g) != len(t.boards) {
+		h.Extra("tree_differs_sample", fmt.Sprintf("%d boards compiled, %d written\n%s", countGraphs(g), len(t.boards), c35Dump(files)))
 		h.Reject("board-tree-differs")
 	}
 	byPath := map[string]*lboard{}
@@ -649,8 +650,8 @@ func checkC35(h *hx.H, c c35Case) {
 				if ref.target == b {
 					nDropped++
 					h.Label("expect:dropped:self")
-					if actual != "" { // unreachable (caught above), kept for clarity
-						h.FailSoft("kept-self:"+place, "%s: self link stored as %q%s", where, actual, ctx())
+					if actual != "" { // stored something else than the board itself
+						h.FailSoft(c35Sig("kept-self", place, place), "%s: self link stored as %q%s", where, actual, ctx())
 					}
 					continue
 				}
@@ -1077,8 +1078,9 @@ func genC35Mode(t *rapid.T, cli bool) c35Case {
 
 func genC35(t *rapid.T) c35Case {
 	// the CLI half costs ~0.5 s per case, the compile half ~0.3 ms
-	hi := hx.Pick(149, 199)
-	cli := rapid.IntRange(0, hi).Draw(t, "cli") == hi // shrinking moves towards the cheap compile mode
+	// rapid favours the ends of an integer range (the top of 0..149 comes up in ~2.5 % of the
+	// draws), hence two draws; a case shrinks towards the cheap compile mode
+	cli := rapid.IntRange(0, 149).Draw(t, "cli") == 149 && rapid.IntRange(0, hx.Pick(3, 5)).Draw(t, "cli2") >= 3
 	return genC35Mode(t, cli)
 }
 
